@@ -53,6 +53,12 @@ TRUSTED readings (Python semantics this extension relies on, beyond those listed
       parameters and of the variables it captures, each of which is assigned exactly once before the
       closure is created (checked): lambda lifting.  An instance of a local subclass of Property whose only
       member is `apply` is the property whose apply is that method (prop_of_apply).
+  R11 `@overload`-decorated stubs of a method followed by one undecorated definition of the same name: the
+      last definition is the method (find_function).  `super().__init__()` in Or / And.__init__ (Filter, ABC,
+      Generic have no __init__ of their own) does nothing.
+  R12 MemoryTimeline, _Buffered and _MergedWithin do not override _is_mask (they use Timeline._is_mask,
+      translated as g_is_mask_base); Duration("hours") etc.: the module-level instances and the table SCALES
+      are checked literally (file_has) against the reading  scale_of_unit.
   R10 `getattr(event, name)` and `accessor(event)` are the parameters py_getattr / the accessor itself and
       do not raise on the events considered (an event without the field raises AttributeError in Python:
       outside the model, where field_of gives VNone).
